@@ -56,19 +56,24 @@ type SignerCfg struct {
 	PluginAnn []KV     `json:"pluginAnn"`
 }
 
-type Call struct {
-	Ref  string `json:"ref"`
-	Md   []KV   `json:"md"`
-	Opts string `json:"opts"`
+// Step is one operation of a history: op = sign | tagTo | untag.
+type Step struct {
+	Op     string `json:"op"`
+	To     int    `json:"to"`
+	Ref    string `json:"ref"`
+	Target int    `json:"target"`
+	Md     []KV   `json:"md"`
+	Opts   string `json:"opts"`
 }
 
 type Input struct {
 	Backend      string    `json:"backend"`
-	Art          Art       `json:"art"`
+	Arts         []Art     `json:"arts"`
+	Tag          *int      `json:"tag"`
 	Repo         Repo      `json:"repo"`
 	Signer       SignerCfg `json:"signer"`
 	PluginConfig []KV      `json:"pluginConfig"`
-	Calls        []Call    `json:"calls"`
+	Steps        []Step    `json:"steps"`
 }
 
 type DescObs struct {
@@ -88,7 +93,7 @@ type CallObs struct {
 	RepoViewSame bool     `json:"repoViewSame"`
 	HandedSame   bool     `json:"handedSame"`
 	OptsSame     bool     `json:"optsSame"`
-	SigCount     int      `json:"sigCount"`
+	SigCounts    []int    `json:"sigCounts"`
 }
 
 type Obs struct {
@@ -226,19 +231,21 @@ func (s annotatingSigner) PluginAnnotations() map[string]string { return s.signe
 
 // ---- repositories ---------------------------------------------------------------------------
 
-// mockRepo holds one artifact; art.Annotations is the repository's own map object.
+// mockRepo holds the artifacts and one tag; arts[k].Annotations is the repository's own map object of artifact k.
 type mockRepo struct {
-	art     ocispec.Descriptor
+	arts    []ocispec.Descriptor
+	tag     int // the artifact "v1" names now; -1: no such tag
 	cfg     Repo
 	other   map[string]bool // further well-formed digests somebody might ask for
 	nilCopy bool
-	pushed  []ocispec.Descriptor
+	pushed  map[digest.Digest][]ocispec.Descriptor
+	nPushed int
 }
 
-func (r *mockRepo) handOut() ocispec.Descriptor {
-	d := r.art
+func (r *mockRepo) handOut(k int) ocispec.Descriptor {
+	d := r.arts[k]
 	if !r.cfg.Aliased {
-		d.Annotations = cloneMap(r.art.Annotations)
+		d.Annotations = cloneMap(r.arts[k].Annotations)
 		if len(d.Annotations) == 0 && r.nilCopy {
 			d.Annotations = nil
 		}
@@ -246,27 +253,33 @@ func (r *mockRepo) handOut() ocispec.Descriptor {
 	return d
 }
 
-func (r *mockRepo) byDigest() ocispec.Descriptor {
+func (r *mockRepo) byDigest(k int) ocispec.Descriptor {
 	if r.cfg.PlainByDigest {
-		return ocispec.Descriptor{MediaType: r.art.MediaType, Digest: r.art.Digest, Size: r.art.Size}
+		return ocispec.Descriptor{MediaType: r.arts[k].MediaType, Digest: r.arts[k].Digest, Size: r.arts[k].Size}
 	}
-	return r.handOut()
+	return r.handOut(k)
 }
 
 func (r *mockRepo) Resolve(ctx context.Context, reference string) (ocispec.Descriptor, error) {
-	switch {
-	case reference == "v1":
-		return r.handOut(), nil
-	case reference == r.art.Digest.String():
-		return r.byDigest(), nil
-	case r.other[reference] && r.cfg.AnyDigest:
-		return r.byDigest(), nil
+	if reference == "v1" {
+		if r.tag < 0 {
+			return ocispec.Descriptor{}, fmt.Errorf("%s: not found", reference)
+		}
+		return r.handOut(r.tag), nil
+	}
+	for k := range r.arts {
+		if reference == r.arts[k].Digest.String() {
+			return r.byDigest(k), nil
+		}
+	}
+	if r.other[reference] && r.cfg.AnyDigest {
+		return r.byDigest(0), nil
 	}
 	return ocispec.Descriptor{}, fmt.Errorf("%s: not found", reference)
 }
 
 func (r *mockRepo) ListSignatures(ctx context.Context, desc ocispec.Descriptor, fn func([]ocispec.Descriptor) error) error {
-	return fn(r.pushed)
+	return fn(r.pushed[desc.Digest])
 }
 
 func (r *mockRepo) FetchSignatureBlob(ctx context.Context, desc ocispec.Descriptor) ([]byte, ocispec.Descriptor, error) {
@@ -278,8 +291,9 @@ func (r *mockRepo) PushSignature(ctx context.Context, mediaType string, blob []b
 		return ocispec.Descriptor{}, ocispec.Descriptor{}, errors.New("push refused")
 	}
 	b := ocispec.Descriptor{MediaType: mediaType, Digest: digest.FromBytes(blob), Size: int64(len(blob))}
-	m := ocispec.Descriptor{MediaType: ocispec.MediaTypeImageManifest, Digest: digest.FromString(fmt.Sprint("manifest", len(r.pushed), b.Digest)), Size: 100}
-	r.pushed = append(r.pushed, m)
+	r.nPushed++
+	m := ocispec.Descriptor{MediaType: ocispec.MediaTypeImageManifest, Digest: digest.FromString(fmt.Sprint("manifest", r.nPushed, b.Digest)), Size: 100}
+	r.pushed[subject.Digest] = append(r.pushed[subject.Digest], m)
 	if r.cfg.Push == "indexDeleteFails" {
 		return b, m, &remote.ReferrersError{Op: "DeleteReferrersIndex", Subject: subject, Err: errors.New("cannot delete the old referrers index")}
 	}
@@ -328,27 +342,29 @@ func (r *recRepo) PushSignature(ctx context.Context, mediaType string, blob []by
 
 // ---- worlds ---------------------------------------------------------------------------------
 
-// world is one concretised repository with the probes that tell whether its view of the artifact changed.
+// world is one concretised repository: ONE long-lived registry.Repository value (inner) for the whole history,
+// the store behind it (to move / delete the tag the way another user of the same store would), and the probes
+// that tell whether its view of the artifacts changed.
 type world struct {
 	backend   string
 	inner     registry.Repository
 	mock      *mockRepo
-	plain     ocispec.Descriptor // mediaType, digest, size of the artifact
+	target    oras.GraphTarget // the store behind a real client (nil: mock, or a client built by NewOCIRepository)
+	store     *oci.Store       // target as *oci.Store, for Untag
+	plains    []ocispec.Descriptor
+	annotated []ocispec.Descriptor // what the tag is (re)created with: plains[k] + the repository's annotation map of k
 	otherDgst string
-	otherAlg  string
+	otherAlgs []string
 	dir       string // OCI layout directory ("" otherwise)
-
-	viewTag, viewDigest ocispec.Descriptor // deep copies of what Resolve answered before the first call
-	viewDigestErr       bool
-	indexEntries        []string           // index.json entries of the artifact before the first call
-	reopenedTag         ocispec.Descriptor // what a store opened from disk resolves the tag to
-	blobs               map[string]int64
+	// quiet: the harness itself never calls Resolve / ListSignatures on the long-lived client between the signing
+	// calls (its probes could refresh or prime state the client keeps); it looks at the store behind it instead
+	quiet bool
 }
 
 const artifactMediaType = ocispec.MediaTypeImageManifest
 
-func (w *world) refString(kind string) string {
-	d := w.plain.Digest.String()
+func (w *world) refString(kind string, target int) string {
+	d := w.plains[target].Digest.String()
 	switch kind {
 	case "tag":
 		return "v1"
@@ -367,7 +383,7 @@ func (w *world) refString(kind string) string {
 	case "fullOtherDigest":
 		return "reg.example/repo@" + w.otherDgst
 	case "otherAlgDigest":
-		return "reg.example/repo@" + w.otherAlg
+		return "reg.example/repo@" + w.otherAlgs[target]
 	case "noRef":
 		return "reg.example/repo"
 	case "bareRepo":
@@ -378,16 +394,22 @@ func (w *world) refString(kind string) string {
 	panic("c11: unknown reference kind " + kind)
 }
 
-func (w *world) argKind(s string) string {
-	switch s {
-	case "v1":
+// argKind classifies what Resolve was asked, relative to the step's target artifact.
+func (w *world) argKind(s string, target int) string {
+	switch {
+	case s == "v1":
 		return "tag"
-	case w.plain.Digest.String():
+	case s == w.plains[target].Digest.String():
 		return "digest"
-	case w.otherDgst, w.otherAlg:
-		return "otherDigest"
-	case "":
+	case s == "":
 		return "empty"
+	case s == w.otherDgst:
+		return "otherDigest"
+	}
+	for k := range w.plains {
+		if s == w.otherAlgs[k] || s == w.plains[k].Digest.String() {
+			return "otherDigest"
+		}
 	}
 	return "unknown"
 }
@@ -428,6 +450,7 @@ func blobsOf(dir string) map[string]int64 {
 	return out
 }
 
+// reopenedView: what a store opened from disk right now resolves the tag to.
 func reopenedView(dir string) ocispec.Descriptor {
 	st, err := oci.New(dir)
 	if err != nil {
@@ -435,84 +458,187 @@ func reopenedView(dir string) ocispec.Descriptor {
 	}
 	d, err := st.Resolve(context.Background(), "v1")
 	if err != nil {
-		return ocispec.Descriptor{MediaType: "resolve failed: " + err.Error()}
+		return ocispec.Descriptor{MediaType: "tag does not resolve"}
 	}
 	return cloneDesc(d)
 }
 
-// snapshot records the repository's view of the artifact before the first call.
-func (w *world) snapshot() {
-	ctx := context.Background()
-	d, err := w.inner.Resolve(ctx, "v1")
-	if err != nil {
-		panic(fmt.Sprintf("c11: the tag does not resolve: %v", err))
-	}
-	w.viewTag = cloneDesc(d)
-	d, err = w.inner.Resolve(ctx, w.plain.Digest.String())
-	w.viewDigestErr = err != nil
-	w.viewDigest = cloneDesc(d)
-	if w.dir != "" {
-		w.indexEntries = indexEntriesOf(w.dir, w.plain.Digest)
-		w.reopenedTag = reopenedView(w.dir)
-		w.blobs = blobsOf(w.dir)
-	}
+// view is the repository's view of its artifacts at one moment, through the long-lived client and on disk.
+type view struct {
+	tag         ocispec.Descriptor
+	tagErr      bool
+	byDigest    []ocispec.Descriptor
+	byDigestErr []bool
+	index       [][]string // index.json entries of each artifact
+	reopenedTag ocispec.Descriptor
+	blobs       map[string]int64
 }
 
-// viewSame: does the repository still show the artifact as it did before the first call?
-// pushes = signatures pushed so far (bounds the blobs that may have appeared).
-func (w *world) viewSame(pushes int) bool {
+func (w *world) view() view {
 	ctx := context.Background()
-	d, err := w.inner.Resolve(ctx, "v1")
-	if err != nil || !sameDesc(d, w.viewTag) {
-		return false
+	var v view
+	// through the long-lived client, unless quiet; and through the store behind it
+	var resolvers []interface {
+		Resolve(context.Context, string) (ocispec.Descriptor, error)
 	}
-	d, err = w.inner.Resolve(ctx, w.plain.Digest.String())
-	if (err != nil) != w.viewDigestErr || (err == nil && !sameDesc(d, w.viewDigest)) {
-		return false
+	if !w.quiet {
+		resolvers = append(resolvers, w.inner)
 	}
-	if w.mock != nil && !sameDesc(w.mock.art, w.viewTag) {
-		return false
+	if w.target != nil {
+		resolvers = append(resolvers, w.target)
+	}
+	for n, rs := range resolvers {
+		d, err := rs.Resolve(ctx, "v1")
+		if n == 0 {
+			v.tag, v.tagErr = cloneDesc(d), err != nil
+		} else {
+			v.byDigest = append(v.byDigest, cloneDesc(d))
+			v.byDigestErr = append(v.byDigestErr, err != nil)
+		}
+		for k := range w.plains {
+			d, err := rs.Resolve(ctx, w.plains[k].Digest.String())
+			v.byDigest = append(v.byDigest, cloneDesc(d))
+			v.byDigestErr = append(v.byDigestErr, err != nil)
+		}
+	}
+	for k := range w.plains {
+		if w.dir != "" {
+			v.index = append(v.index, indexEntriesOf(w.dir, w.plains[k].Digest))
+		}
+	}
+	if w.mock != nil {
+		// the mock's own records, not only what it answers
+		for k := range w.mock.arts {
+			v.byDigest = append(v.byDigest, cloneDesc(w.mock.arts[k]))
+		}
+		v.byDigestErr = append(v.byDigestErr, w.mock.tag < 0)
+		v.byDigest = append(v.byDigest, ocispec.Descriptor{Size: int64(w.mock.tag)})
 	}
 	if w.dir != "" {
-		if !reflect.DeepEqual(indexEntriesOf(w.dir, w.plain.Digest), w.indexEntries) {
+		v.reopenedTag = reopenedView(w.dir)
+		v.blobs = blobsOf(w.dir)
+	}
+	return v
+}
+
+// sameView: is the view after a signing call the view before it? pushed = signatures the call attached.
+func sameView(before, after view, pushed int) bool {
+	if before.tagErr != after.tagErr || (!before.tagErr && !sameDesc(before.tag, after.tag)) {
+		return false
+	}
+	if len(before.byDigest) != len(after.byDigest) {
+		return false
+	}
+	for k := range before.byDigest {
+		if !sameDesc(before.byDigest[k], after.byDigest[k]) {
 			return false
 		}
-		if !sameDesc(reopenedView(w.dir), w.reopenedTag) {
+	}
+	if !reflect.DeepEqual(before.byDigestErr, after.byDigestErr) || !reflect.DeepEqual(before.index, after.index) {
+		return false
+	}
+	if before.blobs != nil {
+		if !sameDesc(before.reopenedTag, after.reopenedTag) {
 			return false
 		}
-		now := blobsOf(w.dir)
-		for name, size := range w.blobs {
-			if s, ok := now[name]; !ok || s != size {
+		for name, size := range before.blobs {
+			if s, ok := after.blobs[name]; !ok || s != size {
 				return false
 			}
 		}
 		// per signature: the envelope and its manifest; once: the empty config
-		if extra := len(now) - len(w.blobs); extra > 2*pushes+1 || (pushes == 0 && extra > 0) {
+		extra := len(after.blobs) - len(before.blobs)
+		if pushed <= 0 && extra > 0 || extra > 2*pushed+1 {
 			return false
 		}
 	}
 	return true
 }
 
-func (w *world) sigCount() int {
-	n := 0
-	err := w.inner.ListSignatures(context.Background(), w.plain, func(ds []ocispec.Descriptor) error {
-		n += len(ds)
-		return nil
-	})
+const countUnreliable = 999999
+
+// rawSigCount counts the signature manifests attached to d by walking the store itself (not the client).
+func rawSigCount(ctx context.Context, t oras.GraphTarget, d ocispec.Descriptor) int {
+	preds, err := t.Predecessors(ctx, d)
 	if err != nil {
-		return -1
+		return countUnreliable
+	}
+	n := 0
+	for _, p := range preds {
+		if p.MediaType != ocispec.MediaTypeImageManifest {
+			continue
+		}
+		b, err := contentOf(ctx, t, p)
+		if err != nil {
+			return countUnreliable
+		}
+		var m ocispec.Manifest
+		if json.Unmarshal(b, &m) != nil {
+			return countUnreliable
+		}
+		if m.Subject != nil && m.Subject.Digest == d.Digest && m.Config.MediaType == registry.ArtifactTypeNotation {
+			n++
+		}
 	}
 	return n
 }
 
-// ---- running one sequence -------------------------------------------------------------------
+// sigCounts: signatures attached to each artifact, as the long-lived client lists them; where the store behind it
+// is at hand the listing must agree with the store.
+func (w *world) sigCounts() []int {
+	ctx := context.Background()
+	out := make([]int, len(w.plains))
+	for k := range w.plains {
+		if w.quiet {
+			if w.mock != nil {
+				out[k] = len(w.mock.pushed[w.plains[k].Digest])
+			} else {
+				out[k] = rawSigCount(ctx, w.target, w.plains[k])
+			}
+			continue
+		}
+		n := 0
+		err := w.inner.ListSignatures(ctx, w.plains[k], func(ds []ocispec.Descriptor) error {
+			n += len(ds)
+			return nil
+		})
+		if err != nil || (w.target != nil && rawSigCount(ctx, w.target, w.plains[k]) != n) {
+			n = countUnreliable
+		}
+		out[k] = n
+	}
+	return out
+}
+
+// tagTo makes "v1" name artifact k from now on - through the store, as any other user of it would.
+func (w *world) tagTo(k int) {
+	if w.mock != nil {
+		w.mock.tag = k
+		return
+	}
+	if err := w.target.Tag(context.Background(), w.annotated[k], "v1"); err != nil {
+		panic(fmt.Sprintf("c11: tag: %v", err))
+	}
+}
+
+func (w *world) untag() {
+	if w.mock != nil {
+		w.mock.tag = -1
+		return
+	}
+	if err := w.store.Untag(context.Background(), "v1"); err != nil {
+		panic(fmt.Sprintf("c11: untag: %v", err))
+	}
+}
+
+// ---- running one history --------------------------------------------------------------------
 
 type gen struct {
-	c      *common.Ctx
-	chains map[int]*common.Chain
-	thumbs map[int][]string
-	nDirs  int
+	lastQuiet bool
+	c         *common.Ctx
+	chains    map[int]*common.Chain
+	thumbs    map[int][]string
+	nDirs     int
 }
 
 func newGen(c *common.Ctx) *gen {
@@ -542,29 +668,48 @@ func newGen(c *common.Ctx) *gen {
 // abstract case before the world exists
 type spec struct {
 	backend   string
-	annPairs  []KV // annotations the artifact is stored / tagged with
-	repo      Repo // honoured by the mock only
+	arts      [][]KV // annotations each artifact is stored / tagged with
+	tag       int    // what the tag names at the start (-1: no tag)
+	repo      Repo   // honoured by the mock only
 	signer    SignerCfg
 	chainLen  int
 	pluginCfg []KV
-	calls     []Call
+	steps     []Step
+}
+
+func (s spec) mutates() bool {
+	for _, st := range s.steps {
+		if st.Op != "sign" {
+			return true
+		}
+	}
+	return false
 }
 
 func (g *gen) buildWorld(s spec) *world {
 	ctx := context.Background()
 	r := g.c.Rand
 	w := &world{backend: s.backend}
-	ann := toMap(s.annPairs, r.Intn(2) == 0)
+	w.otherDgst = digest.FromString("nothing in the repository").String()
 	switch s.backend {
 	case "mock":
-		content := fmt.Sprint("c11 artifact ", r.Intn(4))
-		w.plain = ocispec.Descriptor{MediaType: artifactMediaType, Digest: digest.FromString(content), Size: int64(len(content))}
-		w.otherDgst = digest.FromString("another artifact").String()
-		w.otherAlg = digest.SHA512.FromString(content).String()
-		art := w.plain
-		art.Annotations = ann
-		w.mock = &mockRepo{art: art, cfg: s.repo, other: map[string]bool{w.otherDgst: true, w.otherAlg: true}, nilCopy: r.Intn(2) == 0}
-		w.inner = w.mock
+		base := r.Intn(4)
+		m := &mockRepo{tag: s.tag, cfg: s.repo, other: map[string]bool{w.otherDgst: true}, nilCopy: r.Intn(2) == 0,
+			pushed: map[digest.Digest][]ocispec.Descriptor{}}
+		for k := range s.arts {
+			content := fmt.Sprint("c11 artifact ", base, "/", k)
+			p := ocispec.Descriptor{MediaType: artifactMediaType, Digest: digest.FromString(content), Size: int64(len(content))}
+			w.plains = append(w.plains, p)
+			alg := digest.SHA512.FromString(content).String()
+			w.otherAlgs = append(w.otherAlgs, alg)
+			m.other[alg] = true
+			a := p
+			a.Annotations = toMap(s.arts[k], r.Intn(2) == 0)
+			m.arts = append(m.arts, a)
+			w.annotated = append(w.annotated, a)
+		}
+		w.mock = m
+		w.inner = m
 	case "mem", "oci", "ociReopened":
 		var target oras.GraphTarget
 		if s.backend == "mem" {
@@ -581,48 +726,72 @@ func (g *gen) buildWorld(s spec) *world {
 			}
 			target = st
 		}
-		layer, err := oras.PushBytes(ctx, target, "application/vnd.c11.layer", []byte(fmt.Sprint("layer ", r.Intn(4))))
-		if err != nil {
-			panic(err)
+		base := r.Intn(4)
+		for k := range s.arts {
+			layer, err := oras.PushBytes(ctx, target, "application/vnd.c11.layer", []byte(fmt.Sprint("layer ", base, "/", k)))
+			if err != nil {
+				panic(err)
+			}
+			md, err := oras.PackManifest(ctx, target, oras.PackManifestVersion1_1, "application/vnd.c11.artifact", oras.PackManifestOptions{
+				Layers:              []ocispec.Descriptor{layer},
+				ManifestAnnotations: map[string]string{ocispec.AnnotationCreated: "2000-01-01T00:00:00Z"},
+			})
+			if err != nil {
+				panic(err)
+			}
+			p := ocispec.Descriptor{MediaType: md.MediaType, Digest: md.Digest, Size: md.Size}
+			w.plains = append(w.plains, p)
+			manifestBytes, err := contentOf(ctx, target, md)
+			if err != nil {
+				panic(err)
+			}
+			w.otherAlgs = append(w.otherAlgs, digest.SHA512.FromBytes(manifestBytes).String())
+			a := p
+			ann := s.arts[k]
+			if s.backend == "ociReopened" && k == s.tag {
+				// a store opened from disk shows the tag name among the annotations of the tagged entry
+				ann = merge(ann, []KV{{ocispec.AnnotationRefName, "v1"}})
+			}
+			a.Annotations = toMap(ann, r.Intn(2) == 0)
+			w.annotated = append(w.annotated, a)
+			if s.backend == "mem" {
+				// memory.Store resolves a digest only when it was tagged
+				if err := target.Tag(ctx, a, p.Digest.String()); err != nil {
+					panic(err)
+				}
+			}
 		}
-		md, err := oras.PackManifest(ctx, target, oras.PackManifestVersion1_1, "application/vnd.c11.artifact", oras.PackManifestOptions{
-			Layers:              []ocispec.Descriptor{layer},
-			ManifestAnnotations: map[string]string{ocispec.AnnotationCreated: "2000-01-01T00:00:00Z"},
-		})
-		if err != nil {
-			panic(err)
-		}
-		w.plain = ocispec.Descriptor{MediaType: md.MediaType, Digest: md.Digest, Size: md.Size}
-		tagged := w.plain
-		tagged.Annotations = ann
-		if err := target.Tag(ctx, tagged, "v1"); err != nil {
-			panic(err)
-		}
-		if s.backend == "mem" {
-			// memory.Store resolves a digest only when it was tagged
-			if err := target.Tag(ctx, tagged, w.plain.Digest.String()); err != nil {
+		if s.tag >= 0 {
+			if err := target.Tag(ctx, w.annotated[s.tag], "v1"); err != nil {
 				panic(err)
 			}
 		}
-		w.otherDgst = digest.FromString("another artifact").String()
-		manifestBytes, err := contentOf(ctx, target, md)
-		if err != nil {
-			panic(err)
-		}
-		w.otherAlg = digest.SHA512.FromBytes(manifestBytes).String()
-		if s.backend == "ociReopened" {
+		switch {
+		case s.backend == "ociReopened" && !s.mutates() && r.Intn(2) == 0:
+			// the library's own constructor; the store inside it is out of reach, so only for histories that never move the tag
 			repo, err := registry.NewOCIRepository(w.dir, registry.RepositoryOptions{})
 			if err != nil {
 				panic(err)
 			}
 			w.inner = repo
-		} else {
+		case s.backend == "ociReopened":
+			st, err := oci.New(w.dir)
+			if err != nil {
+				panic(err)
+			}
+			w.target, w.store = st, st
+			w.inner = registry.NewRepositoryWithOptions(st, registry.RepositoryOptions{})
+		default:
+			w.target = target
+			if st, ok := target.(*oci.Store); ok {
+				w.store = st
+			}
 			w.inner = registry.NewRepository(target)
 		}
 	default:
 		panic("c11: backend " + s.backend)
 	}
-	w.snapshot()
+	w.quiet = (w.mock != nil || w.target != nil) && r.Intn(3) == 0
 	return w
 }
 
@@ -652,10 +821,22 @@ func (w *world) repoFlags(s spec) Repo {
 func (g *gen) runSpec(s spec) (Input, Obs) {
 	r := g.c.Rand
 	w := g.buildWorld(s)
-	in := Input{
-		Backend: w.backend,
-		Art:     Art{MediaType: w.plain.MediaType, Digest: w.plain.Digest.String(), Size: w.plain.Size, Ann: pairs(w.viewTag.Annotations)},
-		Repo:    w.repoFlags(s), Signer: s.signer, PluginConfig: s.pluginCfg, Calls: s.calls,
+	g.lastQuiet = w.quiet
+	in := Input{Backend: w.backend, Arts: []Art{}, Repo: w.repoFlags(s), Signer: s.signer, PluginConfig: s.pluginCfg, Steps: s.steps}
+	for k, p := range w.plains {
+		in.Arts = append(in.Arts, Art{MediaType: p.MediaType, Digest: p.Digest.String(), Size: p.Size, Ann: pairs(w.annotated[k].Annotations)})
+	}
+	if s.tag >= 0 {
+		t := s.tag
+		in.Tag = &t
+	}
+	if s.tag >= 0 && !w.quiet {
+		t := s.tag
+		// the abstract annotations must be what the client shows for the tag before anything happened
+		d, err := w.inner.Resolve(context.Background(), "v1")
+		if err != nil || !reflect.DeepEqual(pairs(d.Annotations), in.Arts[t].Ann) || d.Digest != w.plains[t].Digest {
+			panic(fmt.Sprintf("c11: the initial view of the tag is not the one assumed: %v %v", err, d))
+		}
 	}
 	if in.Signer.PluginAnn == nil {
 		in.Signer.PluginAnn = []KV{}
@@ -673,22 +854,38 @@ func (g *gen) runSpec(s spec) (Input, Obs) {
 	rec := &recRepo{inner: w.inner}
 	cfgMap := toMap(in.PluginConfig, r.Intn(2) == 0)
 	cfgCopy := cloneMap(cfgMap)
-	// one UserMetadata map object per run of equal consecutive metadata
-	mdMaps := make([]map[string]string, len(s.calls))
-	mdCopies := make([]map[string]string, len(s.calls))
-	for j, c := range s.calls {
-		if j > 0 && reflect.DeepEqual(c.Md, s.calls[j-1].Md) && r.Intn(4) != 0 {
-			mdMaps[j] = mdMaps[j-1]
+	// one UserMetadata map object per run of equal metadata in consecutive signing steps
+	mdMaps := make([]map[string]string, len(s.steps))
+	mdCopies := make([]map[string]string, len(s.steps))
+	last := -1
+	for j, c := range s.steps {
+		if c.Op != "sign" {
+			mdMaps[j] = toMap(c.Md, true)
+			mdCopies[j] = cloneMap(mdMaps[j])
+			continue
+		}
+		if last >= 0 && reflect.DeepEqual(c.Md, s.steps[last].Md) && r.Intn(4) != 0 {
+			mdMaps[j] = mdMaps[last]
 		} else {
 			mdMaps[j] = toMap(c.Md, r.Intn(2) == 0)
 		}
 		mdCopies[j] = cloneMap(mdMaps[j])
+		last = j
 	}
 	obs := Obs{Calls: []CallObs{}}
-	for j, c := range s.calls {
+	nSign := 0
+	for j, c := range s.steps {
+		switch c.Op {
+		case "tagTo":
+			w.tagTo(c.To)
+			continue
+		case "untag":
+			w.untag()
+			continue
+		}
 		opts := notation.SignOptions{
 			SignerSignOptions: notation.SignerSignOptions{SignatureMediaType: common.MediaJWS, PluginConfig: cfgMap, SigningAgent: "c11"},
-			ArtifactReference: w.refString(c.Ref),
+			ArtifactReference: w.refString(c.Ref, c.Target),
 			UserMetadata:      mdMaps[j],
 		}
 		var sgArg notation.Signer = theSigner
@@ -712,6 +909,8 @@ func (g *gen) runSpec(s spec) (Input, Obs) {
 		default:
 			panic("c11: opts " + c.Opts)
 		}
+		before := w.view()
+		countsBefore := w.sigCounts()
 		nRes, nGot, nPush := len(rec.resolves), len(sg.got), len(rec.pushes)
 		var artDesc ocispec.Descriptor
 		var err error
@@ -722,16 +921,17 @@ func (g *gen) runSpec(s spec) (Input, Obs) {
 					panicked = true
 				}
 			}()
-			if j%2 == 1 {
+			if nSign%2 == 1 {
 				// the deprecated wrapper must behave the same
 				artDesc, err = notation.Sign(context.Background(), sgArg, repoArg, opts)
 			} else {
 				artDesc, _, err = notation.SignOCI(context.Background(), sgArg, repoArg, opts)
 			}
 		}()
+		nSign++
 		o := CallObs{Ok: err == nil && !panicked}
 		if n := len(rec.resolves) - nRes; n == 1 {
-			k := w.argKind(rec.resolves[nRes])
+			k := w.argKind(rec.resolves[nRes], c.Target)
 			o.ResolveArg = &k
 		} else if n > 1 {
 			k := "unknown" // resolving more than once is not what the model does
@@ -763,8 +963,14 @@ func (g *gen) runSpec(s spec) (Input, Obs) {
 		default:
 			o.Returned = "other"
 		}
-		o.SigCount = w.sigCount()
-		o.RepoViewSame = w.viewSame(o.SigCount)
+		o.SigCounts = w.sigCounts()
+		pushed := 0
+		for k := range o.SigCounts {
+			if d := o.SigCounts[k] - countsBefore[k]; d > 0 && d < countUnreliable/2 {
+				pushed += d
+			}
+		}
+		o.RepoViewSame = sameView(before, w.view(), pushed)
 		o.HandedSame = true
 		for _, h := range rec.handed {
 			if !sameDesc(h.desc, h.snap) {
@@ -800,6 +1006,7 @@ func sameMapObject(a, b map[string]string) bool {
 var allRefs = []string{"tag", "fullTag", "hostPortTag", "digest", "fullDigest", "fullTagDigest", "otherDigest",
 	"fullOtherDigest", "otherAlgDigest", "noRef", "bareRepo", "unknownTag"}
 var goodRefs = []string{"tag", "fullTag", "hostPortTag", "digest", "fullDigest", "fullTagDigest"}
+var tagRefs = []string{"tag", "fullTag", "hostPortTag"}
 var badOpts = []string{"nilSigner", "nilRepo", "negativeExpiry", "subSecondExpiry", "emptyMediaType", "unsupportedMediaType"}
 
 var annPool = []KV{
@@ -907,16 +1114,36 @@ func (g *gen) emit(s spec) {
 	g.c.Emit(in, obs)
 	c := g.c
 	c.Count("backend=" + in.Backend)
-	c.Count(fmt.Sprintf("calls=%d", len(in.Calls)))
-	if len(in.Art.Ann) > 0 {
-		c.Count("artifact=annotated")
+	c.Count(fmt.Sprintf("artifacts=%d", len(in.Arts)))
+	if g.lastQuiet {
+		c.Count("probes=store-only(client untouched between calls)")
 	} else {
-		c.Count("artifact=plain")
+		c.Count("probes=through-the-client-and-the-store")
 	}
-	for j, call := range in.Calls {
-		c.Count("ref=" + call.Ref)
-		c.Count("opts=" + call.Opts)
-		o := obs.Calls[j]
+	nSign, tagNow, moved, signedAfterMove := 0, s.tag, false, false
+	for _, st := range in.Steps {
+		c.Count("op=" + st.Op)
+		switch st.Op {
+		case "tagTo":
+			if st.To != tagNow {
+				moved = true
+			}
+			tagNow = st.To
+			continue
+		case "untag":
+			tagNow, moved = -1, true
+			continue
+		}
+		c.Count("ref=" + st.Ref)
+		c.Count("opts=" + st.Opts)
+		o := obs.Calls[nSign]
+		nSign++
+		if moved && refIsTag(st.Ref) {
+			signedAfterMove = true
+			if o.Ok {
+				c.Count("outcome=signed-through-a-moved-tag")
+			}
+		}
 		switch {
 		case o.Ok:
 			c.Count("outcome=signed")
@@ -927,11 +1154,15 @@ func (g *gen) emit(s spec) {
 		default:
 			c.Count("outcome=failed-after-signer")
 		}
-		if len(call.Md) > 0 {
+		if len(st.Md) > 0 {
 			c.Count("metadata=non-empty")
 		} else {
 			c.Count("metadata=empty")
 		}
+	}
+	c.Count(fmt.Sprintf("calls=%d", nSign))
+	if signedAfterMove {
+		c.Count("history=tag-reference-used-after-the-tag-changed")
 	}
 	if in.Repo.Aliased {
 		c.Count("resolve=aliased-map")
@@ -940,15 +1171,115 @@ func (g *gen) emit(s spec) {
 	}
 }
 
+func refIsTag(ref string) bool { return ref == "tag" || ref == "fullTag" || ref == "hostPortTag" }
+
+func signStep(ref string, target int, md []KV, opts string) Step {
+	if md == nil {
+		md = []KV{}
+	}
+	return Step{Op: "sign", Ref: ref, Target: target, Md: md, Opts: opts}
+}
+func tagStep(to int) Step { return Step{Op: "tagTo", To: to, Ref: "tag", Md: []KV{}, Opts: "jws"} }
+func untagStep() Step     { return Step{Op: "untag", Ref: "tag", Md: []KV{}, Opts: "jws"} }
+
+// annsFor draws annotations for n artifacts.
+func (g *gen) annsFor(n int) [][]KV {
+	r := g.c.Rand
+	out := make([][]KV, n)
+	for k := range out {
+		out[k] = []KV{}
+		if r.Intn(4) != 0 {
+			out[k] = pick(r, annPool, 1+r.Intn(4))
+		}
+	}
+	return out
+}
+
+// shown: the annotations the model will be told for artifact k (a re-opened layout adds the tag name to the tagged entry).
+func shown(backend string, arts [][]KV, tag, k int) []KV {
+	if backend == "ociReopened" && k == tag {
+		return merge(arts[k], []KV{{ocispec.AnnotationRefName, "v1"}})
+	}
+	return arts[k]
+}
+
+// randomHistory: 1..3 signing calls (4..6 when long), interleaved - when mutate - with tag moves, deletions and
+// re-creations; the metadata classes are drawn against what the reference will resolve to at that moment.
+func (g *gen) randomHistory(backend string, arts [][]KV, tag int, mutate, canUntag bool, refs []string) []Step {
+	r := g.c.Rand
+	n := 1 + r.Intn(3)
+	if mutate && r.Intn(3) == 0 {
+		n += 3
+	}
+	var steps []Step
+	same := r.Intn(2) == 0
+	var first *Step
+	tagNow := tag
+	for j := 0; j < n; j++ {
+		if mutate && (j > 0 || r.Intn(4) == 0) && r.Intn(3) != 0 {
+			switch x := r.Intn(6); {
+			case x == 0 && canUntag && tagNow >= 0:
+				steps = append(steps, untagStep())
+				tagNow = -1
+				if r.Intn(2) == 0 {
+					// ... and recreated, for the same or another artifact
+					tagNow = r.Intn(len(arts))
+					if r.Intn(3) == 0 {
+						// with a signing attempt while the tag does not exist
+						steps = append(steps, signStep(tagRefs[r.Intn(len(tagRefs))], r.Intn(len(arts)), nil, "jws"))
+					}
+					steps = append(steps, tagStep(tagNow))
+				}
+			default:
+				tagNow = r.Intn(len(arts))
+				steps = append(steps, tagStep(tagNow))
+			}
+		}
+		if same && first != nil {
+			steps = append(steps, *first)
+			continue
+		}
+		class := mdClasses[r.Intn(len(mdClasses))]
+		if r.Intn(3) == 0 {
+			class = "disjoint"
+		}
+		ref := refs[r.Intn(len(refs))]
+		if r.Intn(3) != 0 {
+			ref = goodRefs[r.Intn(len(goodRefs))]
+		}
+		if mutate && r.Intn(2) == 0 {
+			ref = tagRefs[r.Intn(len(tagRefs))]
+		}
+		target := r.Intn(len(arts))
+		opts := "jws"
+		if x := r.Intn(12); x == 0 {
+			opts = badOpts[r.Intn(len(badOpts))]
+		} else if x < 4 {
+			opts = "cose"
+		}
+		against := target
+		if refIsTag(ref) && tagNow >= 0 {
+			against = tagNow
+		}
+		st := signStep(ref, target, g.mdOfClass(class, shown(backend, arts, tag, against)), opts)
+		steps = append(steps, st)
+		if first == nil {
+			first = &st
+		}
+	}
+	return steps
+}
+
 // Run: (1) the cross product reference x metadata class x annotated? x aliasing x digest view on the
-// mock, single and doubled calls; (2) random sequences of 1..3 calls on the mock with all switches
-// free; (3) random sequences on memory.Store and on-disk OCI layouts.
+// mock, single and doubled calls; (2) random histories on the mock with all switches free; (3) random histories
+// on memory.Store and on-disk OCI layouts behind ONE long-lived registry client; (4) moving-tag histories on
+// every backend: sign a tag, move / delete / recreate it through the store, sign the same reference again.
 func Run(c *common.Ctx) error {
 	g := newGen(c)
 	r := c.Rand
-	nMock, nReal := 2000, 500
+	nMock, nReal, nMove := 2000, 500, 240
 	if c.Thorough() {
-		nMock, nReal = 16000, 4000
+		nMock, nReal, nMove = 16000, 4000, 2400
 	}
 	// (1) systematic
 	for _, ref := range allRefs {
@@ -959,56 +1290,30 @@ func Run(c *common.Ctx) error {
 						if !c.Thorough() && !aliased && plain && class != "colliding" && class != "disjoint" {
 							continue
 						}
-						var art []KV
+						art := []KV{}
 						if annotated {
 							art = pick(r, annPool, 1+r.Intn(3))
 						}
 						sc, n := g.signerCfg()
 						sc.Kind = "ok"
-						call := Call{Ref: ref, Md: g.mdOfClass(class, art), Opts: "jws"}
-						calls := []Call{call}
+						call := signStep(ref, 0, g.mdOfClass(class, art), "jws")
+						steps := []Step{call}
 						if r.Intn(2) == 0 {
-							calls = []Call{call, call}
+							steps = []Step{call, call}
 						}
-						g.emit(spec{backend: "mock", annPairs: art, repo: Repo{Aliased: aliased, PlainByDigest: plain, AnyDigest: true, Push: "ok"},
-							signer: sc, chainLen: n, pluginCfg: []KV{}, calls: calls})
+						g.emit(spec{backend: "mock", arts: [][]KV{art}, tag: 0, repo: Repo{Aliased: aliased, PlainByDigest: plain, AnyDigest: true, Push: "ok"},
+							signer: sc, chainLen: n, pluginCfg: []KV{}, steps: steps})
 					}
 				}
 			}
 		}
 	}
-	randomCalls := func(art []KV, refs []string) []Call {
-		n := 1 + r.Intn(3)
-		var calls []Call
-		same := r.Intn(2) == 0
-		for j := 0; j < n; j++ {
-			if same && j > 0 {
-				calls = append(calls, calls[0])
-				continue
-			}
-			class := mdClasses[r.Intn(len(mdClasses))]
-			if r.Intn(3) == 0 {
-				class = "disjoint"
-			}
-			ref := refs[r.Intn(len(refs))]
-			if r.Intn(3) != 0 {
-				ref = goodRefs[r.Intn(len(goodRefs))]
-			}
-			opts := "jws"
-			if x := r.Intn(12); x == 0 {
-				opts = badOpts[r.Intn(len(badOpts))]
-			} else if x < 4 {
-				opts = "cose"
-			}
-			calls = append(calls, Call{Ref: ref, Md: g.mdOfClass(class, art), Opts: opts})
-		}
-		return calls
-	}
-	// (2) random sequences on the mock
+	// (2) random histories on the mock
 	for k := 0; k < nMock; k++ {
-		var art []KV
-		if r.Intn(4) != 0 {
-			art = pick(r, annPool, 1+r.Intn(4))
+		arts := g.annsFor(1 + r.Intn(3))
+		tag := r.Intn(len(arts))
+		if r.Intn(15) == 0 {
+			tag = -1
 		}
 		sc, n := g.signerCfg()
 		push := "ok"
@@ -1022,28 +1327,55 @@ func Run(c *common.Ctx) error {
 		if r.Intn(3) == 0 {
 			cfg = pick(r, freshPool, 1+r.Intn(2))
 		}
-		g.emit(spec{backend: "mock", annPairs: art, repo: Repo{Aliased: r.Intn(4) != 0, PlainByDigest: r.Intn(3) == 0, AnyDigest: r.Intn(3) != 0, Push: push},
-			signer: sc, chainLen: n, pluginCfg: cfg, calls: randomCalls(art, allRefs)})
+		g.emit(spec{backend: "mock", arts: arts, tag: tag, repo: Repo{Aliased: r.Intn(4) != 0, PlainByDigest: r.Intn(3) == 0, AnyDigest: r.Intn(3) != 0, Push: push},
+			signer: sc, chainLen: n, pluginCfg: cfg, steps: g.randomHistory("mock", arts, tag, r.Intn(3) == 0, true, allRefs)})
 	}
-	// (3) real stores
+	// (3) real stores behind one long-lived client
 	for k := 0; k < nReal; k++ {
 		backend := []string{"oci", "ociReopened", "mem", "oci", "ociReopened"}[r.Intn(5)]
-		var art []KV
-		if r.Intn(4) != 0 {
-			art = pick(r, annPool, 1+r.Intn(4))
-		}
-		// what the store will show for the tag (a re-opened layout adds the ref name annotation)
-		shown := art
-		if backend == "ociReopened" {
-			shown = merge(art, []KV{{ocispec.AnnotationRefName, "v1"}})
+		arts := g.annsFor(1 + r.Intn(3))
+		tag := r.Intn(len(arts))
+		if r.Intn(15) == 0 {
+			tag = -1
 		}
 		sc, n := g.signerCfg()
 		var cfg []KV
 		if r.Intn(3) == 0 {
 			cfg = pick(r, freshPool, 1+r.Intn(2))
 		}
-		g.emit(spec{backend: backend, annPairs: art, signer: sc, chainLen: n, pluginCfg: cfg, calls: randomCalls(shown, allRefs)})
+		g.emit(spec{backend: backend, arts: arts, tag: tag, signer: sc, chainLen: n, pluginCfg: cfg,
+			steps: g.randomHistory(backend, arts, tag, r.Intn(2) == 0, backend != "mem", allRefs)})
 	}
-	c.Note("C11: reference kinds x metadata classes (empty, disjoint, colliding, reserved, both, several) x annotated/plain artifact x aliased/copied map x plain/annotated digest view on a mock repository (systematic), then %d random sequences of 1..3 SignOCI/Sign calls on the mock (signer and push failures, invalid options, plugin annotations, signing times 1970..9999 in random zones, chains of 1..3 certificates, JWS and COSE) and %d on memory.Store / on-disk OCI layouts (fresh and re-opened), with index.json, blobs, referrers and every argument object compared before/after each call", nMock, nReal)
+	// (4) what a reference resolves to changes between two uses of the same reference with the same options
+	for k := 0; k < nMove; k++ {
+		backend := []string{"oci", "ociReopened", "mem", "mock"}[k%4]
+		arts := g.annsFor(2 + r.Intn(2))
+		tag := r.Intn(len(arts))
+		other := (tag + 1 + r.Intn(len(arts)-1)) % len(arts)
+		sc, n := g.signerCfg()
+		sc.Kind = "ok"
+		ref := tagRefs[r.Intn(len(tagRefs))]
+		md := []KV{}
+		if r.Intn(2) == 0 {
+			md = pick(r, freshPool, 1+r.Intn(2))
+		}
+		call := signStep(ref, r.Intn(len(arts)), md, []string{"jws", "cose"}[r.Intn(2)])
+		var steps []Step
+		switch variant := r.Intn(5); {
+		case variant == 0: // moved
+			steps = []Step{call, tagStep(other), call}
+		case variant == 1: // moved and moved back
+			steps = []Step{call, tagStep(other), call, tagStep(tag), call}
+		case variant == 2 && backend != "mem": // deleted and recreated for another artifact
+			steps = []Step{call, untagStep(), call, tagStep(other), call}
+		case variant == 3 && backend != "mem": // resolved while missing first, created later
+			steps = []Step{untagStep(), call, tagStep(other), call, tagStep(tag), call}
+		default: // the digest of what the tag used to name, after the move; then the tag
+			steps = []Step{call, tagStep(other), signStep("fullTagDigest", tag, md, "jws"), call, signStep("digest", other, md, "jws")}
+		}
+		g.emit(spec{backend: backend, arts: arts, tag: tag, repo: Repo{Aliased: r.Intn(3) != 0, PlainByDigest: r.Intn(2) == 0, AnyDigest: r.Intn(2) == 0, Push: "ok"},
+			signer: sc, chainLen: n, pluginCfg: []KV{}, steps: steps})
+	}
+	c.Note("C11: reference kinds x metadata classes (empty, disjoint, colliding, reserved, both, several) x annotated/plain artifact x aliased/copied map x plain/annotated digest view on a mock repository (systematic), then %d random histories on the mock (1..3 artifacts, 1..6 SignOCI/Sign calls interleaved with tag moves / deletions / re-creations; signer and push failures, invalid options, plugin annotations, signing times 1970..9999 in random zones, chains of 1..3 certificates, JWS and COSE), %d on memory.Store / on-disk OCI layouts (fresh and re-opened) behind ONE long-lived registry client per history, and %d moving-tag histories (same reference and options before and after the tag is moved / deleted / recreated through the store) on every backend; index.json, blobs, referrers (client listing cross-checked against the store) and every argument object compared before/after each call", nMock, nReal, nMove)
 	return nil
 }
